@@ -221,7 +221,8 @@ def check_history(case, ctx):
         kw["tempdir"] = ctx.tmpdir()
     hash_cached = hashop and cache   # a cached lookup replays the build side only: checked until the first completed pass
     # (groupselectmin/max sort by the VALUE first, so their presorted argument cannot switch the sorting - and its cache - off)
-    presorted = bool(case.get("presorted")) and e.has("presorted") and e.name not in ("groupselectmin", "groupselectmax")
+    presorted = bool(case.get("presorted")) and e.has("presorted") and e.name not in ("groupselectmin", "groupselectmax",
+                                                                                       "unjoin_left", "unjoin_right")
 
     def resort(si):
         rows[si][:] = [list(r) for r in R.ref_sort(rows[si], e.presort)]
